@@ -81,17 +81,7 @@ def gen(rng, tier):
             defs = [['p1', pdef]]
     if rng.random() < 0.12:
         # an alias sub-specification: a bare constant ('q1 = 3.0;') or a bare variable ('q1 = a;') with a name of its own
-        leaves = sorted(set(json.dumps(x) for n_, a in defs + [['', top]] for x in sg.walk(a)
-                            if (x[0] == 'const' and x[1] >= 0) or x[0] == 'var'))
-        if leaves:
-            leaf = json.loads(leaves[rng.randrange(len(leaves))])
-
-            def al(n):
-                if n == leaf:
-                    return ['ref', 'q1']
-                return sg.with_children(n, [al(c) for c in sg.children(n)])
-            defs = [['q1', leaf]] + [[n_, al(a)] for n_, a in defs]
-            top = al(top)
+        defs, top = sg.add_alias(rng, defs, top, 'q1')
     # constants: replace some literals by declared constants
     consts = {}
     lits = sorted(set(x[1] for n, a in defs + [['', top]] for x in sg.walk(a) if x[0] == 'const'))
